@@ -586,10 +586,14 @@ def check_compound(ctx, value):
     # 5. Formula.xray_sld method
     fd = pt.formula(f, density=density)
     rm, im = unpack(lib_call(case, "Formula.xray_sld", lambda: fd.xray_sld(**{key: val})), "Formula.xray_sld")
+    # judged against the reference like route 1 (the object may list its atoms in another order than the string, so the
+    # two library results differ by summation order: a bare relative comparison of the two was a false alarm at seed 3,
+    # where the real part cancels to 1e-4 of its terms)
     for i in range(len(es)):
-        if not (same(rm[i], rho[i], 1e-13) and same(im[i], irho[i], 1e-13)):
-            raise Violation("c05:sld:formula-method", "formula(%r, density=%r).xray_sld(%s=%r) -> (%r, %r), xray_sld -> (%r, %r)"
-                            % (s, density, key, arg[i], rm[i], im[i], rho[i], irho[i]), case)
+        ref = refs_x[i] if mode == "E" else refs[i]
+        whatm = "formula(%r, density=%r).xray_sld(%s=%r)" % (s, density, key, arg[i])
+        judge_sld(rm[i], ref[0], "c05:sld:formula-method", whatm + " rho", case)
+        judge_sld(im[i], ref[1], "c05:sld:formula-method", whatm + " irho", case)
 
     # 6. isotopes replaced by the natural elements at equal natural density
     if has_iso:
